@@ -127,6 +127,20 @@ impl Sym {
     }
 }
 
+/// how many content variants a symbol has (the exhaustive part fans the LAST symbol of a
+/// history out over them; inner steps and random histories rotate through them)
+fn n_variants(cfg: &Cfg, sym: Sym) -> usize {
+    match sym {
+        OpenOk => cfg.open_ok_variants.len(),
+        OpenBadAs => cfg.open_bad_as_variants.len(),
+        OpenWireBad => cfg.wire_bad.len(),
+        Upd => cfg.upd_variants.len(),
+        NotifOther => cfg.notif_other_variants.len(),
+        RouteRefresh => cfg.rr_variants.len(),
+        _ => 1,
+    }
+}
+
 fn decode(code: usize) -> (usize, Sym) {
     (code / 16, SYMS[code % 16])
 }
@@ -144,6 +158,48 @@ struct Cfg {
     open_bad_as: bgp::Message,
     /// OPEN wire images the statement calls unacceptable (identifier / hold time)
     wire_bad: Vec<(&'static str, Vec<u8>)>,
+    /// content variants of one message kind: which branch the FSM takes may depend on the
+    /// content BEFORE it looks at the state; the statement's verdict does not
+    rr_variants: Vec<(&'static str, bgp::Message)>,
+    upd_variants: Vec<(&'static str, bgp::Message)>,
+    open_ok_variants: Vec<(&'static str, bgp::Message)>,
+    open_bad_as_variants: Vec<(&'static str, bgp::Message)>,
+    notif_other_variants: Vec<(&'static str, bgp::Message)>,
+}
+
+/// ROUTE-REFRESH as it comes off the wire: AFI(2) subtype/reserved(1) SAFI(1), through the real parser
+fn route_refresh_wire(afi: u16, subtype: u8, safi: u8) -> Vec<u8> {
+    let mut v = vec![0xffu8; 16];
+    v.extend_from_slice(&23u16.to_be_bytes());
+    v.push(5);
+    v.extend_from_slice(&afi.to_be_bytes());
+    v.push(subtype);
+    v.push(safi);
+    v
+}
+
+/// an acceptable OPEN with other (still acceptable) contents
+fn open_variant_wire(asn: u32, id: u32, hold: u16, four_octet: bool, extra_cap: bool) -> Vec<u8> {
+    let mut caps = vec![Capability::MultiProtocol(Family::IPV4)];
+    if four_octet {
+        caps.push(Capability::FourOctetAsNumber(asn));
+    }
+    if extra_cap {
+        caps.push(Capability::MultiProtocol(Family::IPV6));
+        caps.push(Capability::EnhancedRouteRefresh);
+    }
+    let msg = bgp::Message::Open(bgp::Open {
+        as_number: asn,
+        holdtime: HoldTime::new(90).unwrap(),
+        router_id: 0x0a00_0001,
+        capability: caps,
+    });
+    let mut buf = bytes::BytesMut::with_capacity(128);
+    bgp::PeerCodec::new().encode_to(&msg, &mut buf).expect("encode OPEN");
+    let mut v = buf.to_vec();
+    v[22..24].copy_from_slice(&hold.to_be_bytes());
+    v[24..28].copy_from_slice(&id.to_be_bytes());
+    v
 }
 
 fn local_caps() -> Vec<Capability> {
@@ -216,7 +272,64 @@ impl Cfg {
                 open_wire(REMOTE_AS, 0xffff_ffff, remote_hold),
             ),
         ];
+        let rr = |name: &'static str, afi: u16, subtype: u8, safi: u8| {
+            (name, parse_like_driver(&route_refresh_wire(afi, subtype, safi)).expect("ROUTE-REFRESH must parse"))
+        };
+        let rr_variants = vec![
+            rr("ipv4-unicast-advertised", 1, 0, 1),
+            rr("ipv6-unicast-not-advertised", 2, 0, 1),
+            rr("ipv4-vpn-not-advertised", 1, 0, 128),
+            rr("unknown-afi-safi", 999, 0, 77),
+            rr("ipv4-unicast-subtype-borr", 1, 1, 1),
+            rr("ipv4-unicast-subtype-eorr", 1, 2, 1),
+            rr("afi-safi-0", 0, 0, 0),
+        ];
+        let upd = |name: &'static str, u: bgp::Update| (name, bgp::Message::Update(u));
+        let upd_variants = vec![
+            upd("end-of-rib-ipv4", bgp::Update::EndOfRib(Family::IPV4)),
+            upd("end-of-rib-ipv6-not-negotiated", bgp::Update::EndOfRib(Family::IPV6)),
+            upd("withdraw-ipv4-empty", bgp::Update::Unreach { family: Family::IPV4, entries: Vec::new() }),
+            upd("withdraw-vpnv4-not-negotiated", bgp::Update::Unreach { family: Family::IPV4_VPN, entries: Vec::new() }),
+            upd(
+                "reach-ipv4-no-attributes",
+                bgp::Update::Reach { family: Family::IPV4, entries: Vec::new(), nexthop: None, attr: std::sync::Arc::new(Vec::new()) },
+            ),
+            upd(
+                "reach-ipv6-not-negotiated",
+                bgp::Update::Reach { family: Family::IPV6, entries: Vec::new(), nexthop: None, attr: std::sync::Arc::new(Vec::new()) },
+            ),
+        ];
+        let ov = |name: &'static str, asn: u32, hold: u16, four: bool, extra: bool| {
+            (name, parse_like_driver(&open_variant_wire(asn, remote_id, hold, four, extra)).expect("OPEN variant must parse"))
+        };
+        let open_ok_variants = vec![
+            ("as-configured", open_ok.clone()),
+            ov("hold-time-0", REMOTE_AS, 0, true, false),
+            ov("hold-time-65535", REMOTE_AS, 65535, true, false),
+            ov("no-four-octet-as-capability", REMOTE_AS, remote_hold, false, false),
+            ov("more-capabilities", REMOTE_AS, remote_hold, true, true),
+        ];
+        let open_bad_as_variants = vec![
+            ("wrong-as", open_bad_as.clone()),
+            ov("wrong-as-hold-time-0", WRONG_AS, 0, true, true),
+            ov("wrong-as-no-four-octet", WRONG_AS, remote_hold, false, false),
+        ];
+        let nv = |name: &'static str, n: Notification| (name, bgp::Message::Notification(n));
+        let notif_other_variants = vec![
+            nv("update-3-1", Notification::UpdateMalformedAttributeList),
+            nv("header-1-2", Notification::BadMessageLength { data: vec![0, 5] }),
+            nv("open-2-2", Notification::OpenBadPeerAs),
+            nv("hold-timer-4-0", Notification::HoldTimerExpired),
+            nv("fsm-5-1", Notification::FsmUnexpectedState { state: 1 }),
+            nv("cease-collision-6-7", Notification::CeaseConnectionCollision),
+            nv("unknown-9-9", Notification::Other { code: 9, subcode: 9, data: vec![1, 2, 3] }),
+        ];
         Cfg {
+            rr_variants,
+            upd_variants,
+            open_ok_variants,
+            open_bad_as_variants,
+            notif_other_variants,
             name: format!(
                 "local-id-{} local={:#010x} remote={:#010x} hold={}/{}",
                 rel, local_id, remote_id, local_hold, remote_hold
@@ -377,6 +490,8 @@ struct Seen {
     other_on_channel: [bool; 2],
     parser: Option<(&'static str, Option<(u8, u8)>)>,
     parser_accepted: bool,
+    /// which content variant of the message kind was fed
+    variant: &'static str,
 }
 
 fn notif_codes(m: &bgp::Message) -> Option<(u8, u8)> {
@@ -457,10 +572,19 @@ impl Drv {
                 }
                 Input::Connected(sym == ConnRestart)
             }
-            OpenOk => Input::MessageReceived(cfg.open_ok.clone()),
-            OpenBadAs => Input::MessageReceived(cfg.open_bad_as.clone()),
+            OpenOk => {
+                let (name, m) = &cfg.open_ok_variants[variant % cfg.open_ok_variants.len()];
+                seen.variant = name;
+                Input::MessageReceived(m.clone())
+            }
+            OpenBadAs => {
+                let (name, m) = &cfg.open_bad_as_variants[variant % cfg.open_bad_as_variants.len()];
+                seen.variant = name;
+                Input::MessageReceived(m.clone())
+            }
             OpenWireBad => {
                 let (name, wire) = &cfg.wire_bad[variant % cfg.wire_bad.len()];
+                seen.variant = name;
                 match parse_like_driver(wire) {
                     // run_select: a parse error terminates the session with that
                     // NOTIFICATION, bypassing the FSM; apply_disconnect then feeds
@@ -481,7 +605,9 @@ impl Drv {
             }
             Ka => Input::MessageReceived(bgp::Message::Keepalive),
             Upd => {
-                Input::MessageReceived(bgp::Message::Update(bgp::Update::EndOfRib(Family::IPV4)))
+                let (name, m) = &cfg.upd_variants[variant % cfg.upd_variants.len()];
+                seen.variant = name;
+                Input::MessageReceived(m.clone())
             }
             NotifCease => {
                 Input::MessageReceived(bgp::Message::Notification(Notification::CeaseAdminShutdown))
@@ -489,12 +615,16 @@ impl Drv {
             NotifHard => {
                 Input::MessageReceived(bgp::Message::Notification(Notification::CeaseHardReset))
             }
-            NotifOther => Input::MessageReceived(bgp::Message::Notification(
-                Notification::UpdateMalformedAttributeList,
-            )),
-            RouteRefresh => Input::MessageReceived(bgp::Message::RouteRefresh {
-                family: Family::IPV4,
-            }),
+            NotifOther => {
+                let (name, m) = &cfg.notif_other_variants[variant % cfg.notif_other_variants.len()];
+                seen.variant = name;
+                Input::MessageReceived(m.clone())
+            }
+            RouteRefresh => {
+                let (name, m) = &cfg.rr_variants[variant % cfg.rr_variants.len()];
+                seen.variant = name;
+                Input::MessageReceived(m.clone())
+            }
             HoldExp => Input::HoldTimerExpired,
             KaExp => Input::KeepaliveTimerExpired,
             Disc => Input::Disconnected,
@@ -692,6 +822,12 @@ fn judge(
         return;
     }
     let clause = reference(cfg.local_id, cfg.remote_id, p, op, r, sym);
+    // which (state, message kind, content variant) combinations were really judged
+    if p != Slot::Free && !seen.variant.is_empty() {
+        *t.dyn_m
+            .entry(format!("variant:{}:{}:{}", p.name(), sym.name(), seen.variant))
+            .or_insert(0) += 1;
+    }
 
     // ---- parser part of "acceptable OPEN (valid identifier and hold time)"
     if let Some((variant, codes)) = seen.parser {
@@ -963,8 +1099,9 @@ fn judge(
                 fail(
                     format!("C07/fsm-error/{}/{}", s.name(), sym.name()),
                     format!(
-                        "{} is not allowed in {} but the connection was not torn down (state {}, SessionDown {})",
+                        "{} [{}] is not allowed in {} but the connection was not torn down (state {}, SessionDown {})",
                         sym.name(),
+                        seen.variant,
                         s.name(),
                         n.name(),
                         seen.down[r]
@@ -1046,6 +1183,8 @@ fn run_history(
     mode: Mode,
     seq: &[u8],
     judge_all: bool,
+    // content variant of the last symbol; inner steps rotate (vbase + position)
+    last_variant: usize,
     t: &mut Tally,
     mut trace: Option<&mut Vec<String>>,
 ) -> (
@@ -1086,7 +1225,7 @@ fn run_history(
             cfg,
             r,
             sym,
-            i + seq.len(),
+            if is_last { last_variant } else { last_variant / 8 + i + seq.len() },
             if trace.is_some() {
                 Some(&mut rendered)
             } else {
@@ -1102,6 +1241,7 @@ fn run_history(
                 sym.name(),
                 match seen.parser {
                     Some((v, c)) => format!("[{} parser={:?}]", v, c),
+                    None if !seen.variant.is_empty() => format!("[{}]", seen.variant),
                     None => String::new(),
                 },
                 rendered.join(", "),
@@ -1181,11 +1321,11 @@ fn seq_json(seq: &[u8]) -> Json {
     }))
 }
 
-fn report_findings(rep: &mut Report, cfg: &Cfg, mode: Mode, seq: &[u8], res: RunResult) {
+fn report_findings(rep: &mut Report, cfg: &Cfg, mode: Mode, seq: &[u8], variant: usize, res: RunResult) {
     // replay with rendering for the witness
     let mut t = Tally::default();
     let mut trace = Vec::new();
-    let _ = run_history(cfg, mode, seq, true, &mut t, Some(&mut trace));
+    let _ = run_history(cfg, mode, seq, true, variant, &mut t, Some(&mut trace));
     for f in res.findings {
         rep.violation(
             &f.sig,
@@ -1198,6 +1338,7 @@ fn report_findings(rep: &mut Report, cfg: &Cfg, mode: Mode, seq: &[u8], res: Run
                 ("local_hold", Json::i(cfg.local_hold)),
                 ("remote_hold", Json::i(cfg.remote_hold)),
                 ("inputs", seq_json(seq)),
+                ("content_variant_of_last_input", Json::i(variant as u64)),
                 ("input_codes_hex", Json::s(hex(seq))),
                 ("failing_step", Json::i(res.at as u32)),
                 ("trace", Json::strs(trace.clone())),
@@ -1207,15 +1348,15 @@ fn report_findings(rep: &mut Report, cfg: &Cfg, mode: Mode, seq: &[u8], res: Run
 }
 
 /// Greedy delta-debugging: drop steps while the same signature is still produced.
-fn shrink(cfg: &Cfg, mode: Mode, seq: &[u8], sig: &str) -> Vec<u8> {
+fn shrink(cfg: &Cfg, mode: Mode, seq: &[u8], variant: usize, sig: &str) -> Vec<u8> {
     let mut cur = seq.to_vec();
     let mut t = Tally::default();
     let fires = |s: &[u8], t: &mut Tally| {
-        let (res, _, _) = run_history(cfg, mode, s, true, t, None);
+        let (res, _, _) = run_history(cfg, mode, s, true, variant, t, None);
         res.findings.iter().any(|f| f.sig == sig)
     };
     // cut the tail after the failing step first
-    let (res, _, _) = run_history(cfg, mode, &cur, true, &mut t, None);
+    let (res, _, _) = run_history(cfg, mode, &cur, true, variant, &mut t, None);
     if res.at + 1 < cur.len() && fires(&cur[..res.at + 1], &mut t) {
         cur.truncate(res.at + 1);
     }
@@ -1293,12 +1434,15 @@ fn exhaustive(rep: &mut Report, params: &Params, depth: usize, t: &mut Tally) {
                     } else {
                         seq[0] as usize
                     };
-                    if bucket % nshards == me {
+                    // the content variants of the last symbol (they decide nothing in the reference
+                    // FSM, but the code may branch on them before it looks at the state)
+                    let fan = if bucket % nshards == me { n_variants(cfg, decode(seq[d - 1] as usize).1) } else { 0 };
+                    for v in 0..fan {
                         let (res, judged, nontrivial) =
-                            run_history(cfg, mode, &seq, false, t, None);
+                            run_history(cfg, mode, &seq, false, v, t, None);
                         rep.evals(judged);
                         if nontrivial {
-                            let mut key = vec![ci as u8, mode as u8];
+                            let mut key = vec![ci as u8, mode as u8, v as u8];
                             key.extend_from_slice(&seq);
                             rep.nontrivial(fnv64(&key));
                         }
@@ -1309,7 +1453,7 @@ fn exhaustive(rep: &mut Report, params: &Params, depth: usize, t: &mut Tally) {
                                     rep.violation(&f.sig, &f.what, Json::Null);
                                 }
                             } else {
-                                report_findings(rep, cfg, mode, &seq, res);
+                                report_findings(rep, cfg, mode, &seq, v, res);
                             }
                         }
                         if rep.want_sample()
@@ -1319,7 +1463,7 @@ fn exhaustive(rep: &mut Report, params: &Params, depth: usize, t: &mut Tally) {
                         {
                             let mut tr = Vec::new();
                             let mut t2 = Tally::default();
-                            let _ = run_history(cfg, mode, &seq, true, &mut t2, Some(&mut tr));
+                            let _ = run_history(cfg, mode, &seq, true, v, &mut t2, Some(&mut tr));
                             rep.sample(Json::obj(vec![
                                 ("config", Json::s(cfg.name.clone())),
                                 ("driver", Json::s(format!("{:?}", mode))),
@@ -1426,9 +1570,12 @@ fn random_histories(rep: &mut Report, params: &Params, count: u64, t: &mut Tally
         // the idle clause's "a subsequent connect is accepted": end with a connect on each role
         seq.push(0);
         seq.push(16);
-        let (res, judged, _) = run_history(&cfg, mode, &seq, true, t, None);
+        // content variants rotate through the history from a random offset
+        let variant = (rng.next_u32() as usize) | 8;
+        let (res, judged, _) = run_history(&cfg, mode, &seq, true, variant, t, None);
         rep.evals(judged);
         let mut key = vec![mode as u8];
+        key.extend_from_slice(&(variant as u64).to_be_bytes());
         key.extend_from_slice(&cfg.local_id.to_be_bytes());
         key.extend_from_slice(&cfg.remote_id.to_be_bytes());
         key.extend_from_slice(&seq);
@@ -1439,9 +1586,9 @@ fn random_histories(rep: &mut Report, params: &Params, count: u64, t: &mut Tally
                 if rep.has_violation(&f.sig) {
                     rep.violation(&f.sig, &f.what, Json::Null);
                 } else {
-                    let small = shrink(&cfg, mode, &seq, &f.sig);
+                    let small = shrink(&cfg, mode, &seq, variant, &f.sig);
                     let mut t2 = Tally::default();
-                    let (r2, _, _) = run_history(&cfg, mode, &small, true, &mut t2, None);
+                    let (r2, _, _) = run_history(&cfg, mode, &small, true, variant, &mut t2, None);
                     let keep: Vec<Finding> =
                         r2.findings.into_iter().filter(|g| g.sig == f.sig).collect();
                     report_findings(
@@ -1449,6 +1596,7 @@ fn random_histories(rep: &mut Report, params: &Params, count: u64, t: &mut Tally
                         &cfg,
                         mode,
                         &small,
+                        variant,
                         RunResult {
                             findings: keep,
                             at: r2.at,
